@@ -9,9 +9,11 @@ when `c ≤ INT_MAX`). The storage `buf` is the `malloc(capacity)` block; every
 the real block: an access outside `[0, buf.length)` (or with a negative size) is
 `Err.oob`, never a default value.
 
-The model is of the code WITH fixes/C07-stale-truncation.patch applied (the two
-`t := c` assignments in `read`, marked FIX). `Orig.read` is the function as it is
-in the pinned tree; `MgProof.C07.stale_truncation_duplicates` shows that it breaks
+The model is of the code WITH fixes/C07-stale-truncation.patch applied (the extra
+conjunct `r > w` in the wrap test of `read`, marked FIX; the truncation mark `t` is
+deliberately left alone when the reader wraps — the existing unit test
+`fc_and_move_n_case2` pins that — so in the contiguous layout `t` may be a stale
+mark and is never consulted). `Orig.read` is the function as it is in the pinned tree; `MgProof.C07.stale_truncation_duplicates` shows that it breaks
 the FIFO property.
 -/
 namespace MgModel.C07
@@ -116,20 +118,21 @@ def fetch (s : BB) (n : Int) : Except Err (Option (List Byte)) :=
       let d ← copySplit s cr (n - cr)
       return some d
 
-/-- `muggle_bytes_buffer_read` (fixed: `t := c` whenever the reader wraps) -/
+/-- `muggle_bytes_buffer_read` (fixed: the `r == t` wrap fires only for a wrapped
+    reader, `r > w`) -/
 def read (s : BB) (n : Int) : Except Err (BB × Option (List Byte)) :=
   let cr := contiguousReadable s
   if cr ≥ n then do
     let d ← rd s s.r n
     let s1 := { s with r := s.r + n }
-    let s2 := if s1.r = s1.t then { s1 with r := 0, t := s1.c /- FIX -/ } else s1
+    let s2 := if s1.r = s1.t ∧ s1.r > s1.w /- FIX: second conjunct -/ then { s1 with r := 0 } else s1
     return (refresh s2, some d)
   else
     let jr := jumpReadable s
     if cr + jr < n then return (s, none)
     else do
       let d ← copySplit s cr (n - cr)
-      let s1 := { s with r := n - cr, t := s.c /- FIX -/ }
+      let s1 := { s with r := n - cr }
       return (refresh s1, some d)
 
 /-- the writer advance shared by `write`, `writer_move`, `writer_move_n`:
@@ -332,12 +335,22 @@ def obtainedAll : List Op → List Res → List Byte
   | op :: ops, r :: rs => obtained r op ++ obtainedAll ops rs
   | _, _ => []
 
+/-- bytes that leave the queue by one operation: obtained by the reader, or thrown
+    away by an explicit `clear` -/
+def departed (q : List Byte) (res : Res) : Op → List Byte
+  | .clear => q
+  | op => obtained res op
+
+def departedAll (q : List Byte) : List Op → List Res → List Byte
+  | op :: ops, r :: rs => departed q r op ++ departedAll (specStep q r.isOk op).1 ops rs
+  | _, _ => []
+
 /-- what the abstraction of a state is: the unread bytes, oldest first -/
 def abs (s : BB) : List Byte :=
   if s.r ≤ s.w then slice s.buf s.r.toNat (s.w - s.r).toNat
   else slice s.buf s.r.toNat (s.t - s.r).toNat ++ slice s.buf 0 s.w.toNat
 
-/-! ## The function as it is in the pinned tree (no `t := c` when the reader wraps) -/
+/-! ## The function as it is in the pinned tree (the wrap test is just `r == t`) -/
 namespace Orig
 
 def read (s : BB) (n : Int) : Except Err (BB × Option (List Byte)) :=
